@@ -142,6 +142,15 @@ where
         manager_ref: Manager<S, F, C, RS>,
         auth_message: &AuthMessage<C>,
     ) -> Result<Option<(AuthGroupState<C>, Event<C>)>, GroupError<F, C, RS>> {
+        // Promoting and demoting members is not supported in spaces yet (no events or encryption
+        // group changes are defined for it). A remote peer chose this action, reject it.
+        if matches!(
+            auth_message.action(),
+            AuthGroupAction::Promote { .. } | AuthGroupAction::Demote { .. }
+        ) {
+            return Err(GroupError::UnsupportedAction(auth_message.id()));
+        }
+
         let mut groups_y = manager_ref.get_groups_state().await?;
 
         // If we already processed this auth message then return now.
@@ -252,4 +261,7 @@ where
 
     #[error(transparent)]
     Store(#[from] StoreError),
+
+    #[error("auth message {0} contains an action which is not supported yet")]
+    UnsupportedAction(OperationId),
 }
